@@ -140,7 +140,7 @@ let () =
                if not (scope_step !st acc_thrs tn xn) then
                  scope_msg := Printf.sprintf ". SCOPE-OUT step %d (a hypothesis of Main.RunOK does not hold in the state before this step)" !acc_step
              end;
-             let (s', evs) = step_stale cf !st tn xn in
+             let (s', evs) = step_stale2 cf !st tn xn in
              st := s';
              if acc_on then List.iter (fun e -> match e with EvAlloc (a, _) -> if not (List.mem a !acc_addrs) then acc_addrs := a :: !acc_addrs | _ -> ()) evs;
              if acc_on && not !acc_failed then begin
